@@ -7,6 +7,10 @@ CHECKS = {
          "Lean 4 refinement proof (pipeline = Sat) + differential correspondence", "5/C01"),
  "C02": ("Lean theorems: generic eager/lazy handler relation for every step list, instantiated to the frame pipeline; exactness of null/check failure cells for every check function; differential tie of eager vs lazy runs and of the lazy report to the model",
          "Lean 4 proof (handler theorem, cell exactness) + differential correspondence", "5/C02"),
+ "C18": ("Lean theorems: config_context restores the context for every nesting tree with/without exceptions; env parsing honoured (over expressions regenerated from _config_from_env_vars); disabled = identity; depth decomposition SAD <=> SO and DO for every scope table; SCHEMA_ONLY = schema part and DATA_ONLY = data part (partial outside a recorded region) over the scope table regenerated from the @validate_scope decorators; polars default depth. Differential: exhaustive nestings, all 108 env settings, every entry point, verdicts per depth",
+         "Lean 4 proof (induction over nesting trees, depth decomposition) + translators (scope map, env parsing) + exhaustive differential", "5/C18"),
+ "C20": ("Lean theorem kept_eq_requested: de-duplicating the concatenated head/tail/sample by key equals de-duplicating by position whenever keys of distinct rows are distinct (all n, h, t, all sample draws), plus witnesses for the two recorded regions; differential: verdict with options vs verdict on the positional frame, pandas and polars",
+         "Lean 4 proof (selection = positional selection under injective keys) + differential correspondence", "5/C20"),
 }
 NA = {}
 for i in range(1, 21):
